@@ -257,9 +257,15 @@ void h_df(void)
 /* environment contracts of the two callees for this proof = clauses PROVED above (phb_safety B0/B1, determine_framing D5 + result domain) */
 void phb_env(iora_sv hs, Response *resp)
 __CPROVER_requires(IORA_TRUE && iora_exc == EXC_NONE)
-/* the call-site precondition of parseHeaderBlock's own contract, checked here: the field map is empty (`resp = Response{}` just before) */
-__CPROVER_requires(resp->headers.has_cl == 0 && resp->headers.has_te == 0)
+/* R9 (RFC 9112 6.3 / 15.2: the body of the FINAL response is delimited by the final response's OWN framing fields only). parseHeaderBlock only ADDS to /
+ *    overwrites the field map it is given (`resp.headers[name] = value`; this stub: any result for a non-empty map, carried-over entries included), and
+ *    determineFraming reads the same map. So at EVERY call - the first one and each one that follows a discarded interim 1xx response - the map must hold
+ *    no framing field of an earlier block or of the caller: resp is in its default state (`resp = Response{}` immediately before the call). This is also the
+ *    call-site precondition of parseHeaderBlock's own contract (phb_* proofs). */
+__CPROVER_requires(resp->headers.has_cl == 0 && resp->headers.has_te == 0 && resp->statusCode == 0 && resp->body.n == 0)
 __CPROVER_assigns(iora_exc, *resp)
+/* "adds to what is there": an entry that was in the map stays in the map (relevant only where R9 is violated) */
+__CPROVER_ensures((__CPROVER_old(resp->headers.has_cl) != 0 ==> resp->headers.has_cl != 0) && (__CPROVER_old(resp->headers.has_te) != 0 ==> resp->headers.has_te != 0))
 __CPROVER_ensures(iora_exc == EXC_NONE || iora_exc == EXC_HttpFramingError)
 __CPROVER_ensures(iora_exc == EXC_NONE ==> (resp->statusCode >= 0 && resp->statusCode <= 999))
 ;
